@@ -120,6 +120,7 @@ func runC11(c *Ctx, r *Report) {
 
 	c11Sentinel(c, r)
 	c11Results(c, r)
+	c11FreshDecoder(c, r)
 	// R4
 	c03DecoderAdds(c, r)
 	// the partial File holds complete messages *as Decode delivers them*: component expansion happens
@@ -420,4 +421,46 @@ func c11Results(c *Ctx, r *Report) {
 		r.fail("C11-R5-results", "DecodeChained", "", "DecodeChained not found")
 	}
 	_ = info
+}
+
+// c11FreshDecoder: the File handed back next to an error is the one this call built: every entry
+// point runs decode on a decoder that is a fresh zero value of the call itself (for DecodeChained:
+// per file, perfile.go) — a pooled or reused decoder can still hold the File of an earlier call
+// when the header of a cut stream fails before a new File is created. And the CRC-only mode reads
+// exactly int64(DataSize) bytes, with no arithmetic in a narrower type that could wrap to a length
+// the cut stream satisfies.
+func c11FreshDecoder(c *Ctx, r *Report) {
+	dec := c.ssaFn(c.fn(c.fit, "decoder.decode"))
+	for _, name := range []string{"Decode", "DecodeHeader", "DecodeHeaderAndFileID", "CheckIntegrity"} {
+		fn := c.ssaFn(c.fn(c.fit, name))
+		if fn == nil || dec == nil {
+			r.fail("C11-R5-results", name+"/fresh-decoder", "", "entry point or decode not found")
+			continue
+		}
+		ok, n := true, 0
+		for _, ci := range allCalls(fn) {
+			if ci.Common().StaticCallee() != dec {
+				continue
+			}
+			n++
+			if !c.freshDecoderValue(ci.Common().Args[0], fn) {
+				ok = false
+			}
+		}
+		r.check(ok && n > 0, "C11-R5-results", name+"/fresh-decoder", c.pos(fn.Pos()), "decode runs on a zero decoder local to the call", name+" does not run decode on a fresh local decoder: state of an earlier call (its File, its definitions) can be handed back next to the error of a stream that fails early")
+	}
+	perFileRule(c, r, "C11-R5-results", []string{"file"}, "the File of the previous chained file is returned next to the error of the next one")
+	if dec != nil {
+		n := 0
+		for _, fn := range c.reach([]*ssa.Function{dec}).module() {
+			for _, ci := range allCalls(fn) {
+				if f := ci.Common().StaticCallee(); f != nil && f.String() == "io.CopyN" {
+					n++
+					p := stripAddrs(pathOf(ci.Common().Args[2]))
+					r.check(p == "conv<int64>(*d.h.DataSize)", "C11-R1-no-dropped-error", fn.Name()+"/CopyN-length", c.pos(ci.Pos()), "CRC-only mode copies int64(DataSize) bytes", "the CRC-only copy reads "+p+" bytes instead of int64(DataSize): a length computed in a narrower type can wrap, and a stream cut anywhere behind the header then verifies")
+				}
+			}
+		}
+		r.need("CopyN sites under decode", n, 1)
+	}
 }
